@@ -1,3 +1,130 @@
 package main
 
-func checkMain(args []string) int { return 0 }
+// "harness check <property> <tier> <out.json> [--spec]": run the streams
+// assigned to a property and write what was observed as JSON; the verdict is
+// taken by /verif/check.
+
+import (
+	"encoding/json"
+	"fmt"
+	"io/ioutil"
+	"os"
+	"runtime"
+	"sort"
+	"time"
+)
+
+type streamPlan struct {
+	name   string
+	quick  int
+	thorough int
+}
+
+func syntaxEnumCount(maxLen int) int {
+	c, span := 0, 1
+	for n := 1; n <= maxLen; n++ {
+		span *= len(tokenAlphabet)
+		c += span
+	}
+	return c
+}
+
+func plans() map[string][]streamPlan {
+	return map[string][]streamPlan{
+		"C01": {{"core", 25000, 500000}, {"expr", 6000, 100000}},
+		"C02": {{"proj", 25000, 500000}, {"vproj", 8000, 150000}},
+		"C03": {{"prec", 20000, 400000}, {"spelling", 6000, 150000}, {"syntax-enum", syntaxEnumCount(3), syntaxEnumCount(4)}},
+		"C04": {{"syntax-enum", syntaxEnumCount(3), syntaxEnumCount(4)}, {"syntax", 15000, 500000}, {"hostile", 4000, 50000}},
+		"C05": {{"hostile", 15000, 300000}, {"bytes", 20000, 500000}, {"expr", 10000, 200000}, {"fnmatrix", matrixCount(2), matrixCount(3)}, {"fnseq", 8000, 100000}},
+		"C06": {{"fnpaths", 25000, 500000}, {"api", 1500, 40000}, {"expr", 5000, 100000}},
+		"C07": {{"truth", truthCount(), truthCount()}, {"truth-nest", 10000, 500000}},
+		"C08": {{"slice", sliceCount(6), sliceCount(9)}, {"slice-big", sliceBigCount() + 5000, sliceBigCount() + 300000}},
+		"C09": {{"fn", 40000, 800000}, {"expr", 5000, 100000}},
+		"C10": {{"fnmatrix", matrixCount(3), matrixCount(4)}, {"fnseq", 15000, 300000}, {"expr", 5000, 100000}},
+		"C11": {{"errctx", errCtxCount(true), errCtxCount(true)}, {"expr", 8000, 300000}, {"proj", 4000, 100000}},
+		"C13": {{"api", 3000, 120000}, {"expr", 4000, 100000}},
+		"C14": {{"ident", identExhaustive(2) + 8000, identExhaustive(2) + 300000}, {"unquoted", unquotedCount(), unquotedCount()}, {"spelling", 5000, 100000}, {"jsoncodec", 4000, 100000}},
+		"C15": {{"pipe", 15000, 400000}, {"subst", 10000, 300000}},
+		"C16": {{"jsonish", 4000, 100000}, {"expr", 15000, 300000}, {"fn", 10000, 200000}, {"jsoncodec", 3000, 100000}},
+		"C17": {{"bytes", 20000, 500000}, {"syntax-enum", syntaxEnumCount(3), syntaxEnumCount(4)}, {"syntax", 8000, 200000}},
+		"C19": {{"cli", 1200, 30000}, {"jsoncodec", 4000, 100000}},
+	}
+}
+
+type caseOut struct {
+	Stream string `json:"stream"`
+	Index  int    `json:"index"`
+	Line   string `json:"line"`
+	Text   string `json:"text"`
+	Go     string `json:"go"`
+	Lean   string `json:"lean,omitempty"`
+}
+
+type checkOut struct {
+	Property    string         `json:"property"`
+	Tier        string         `json:"tier"`
+	Seed        uint64         `json:"seed"`
+	Spec        bool           `json:"spec_tables"`
+	Streams     map[string]int `json:"streams"`
+	Evaluations int            `json:"evaluations"`
+	Distinct    int            `json:"distinct"`
+	Nontrivial  int            `json:"distinct_nontrivial"`
+	Kinds       map[string]int `json:"kinds"`
+	Samples     []string       `json:"samples"`
+	Mismatches  []caseOut      `json:"mismatches"`
+	Flags       []caseOut      `json:"flags"`
+	Crashes     []caseOut      `json:"crashes"`
+	WallS       float64        `json:"wall_s"`
+}
+
+func toCases(rs []result, max int) []caseOut {
+	sort.Slice(rs, func(i, j int) bool { return len(rs[i].line) < len(rs[j].line) })
+	out := []caseOut{}
+	for i, r := range rs {
+		if i >= max {
+			break
+		}
+		out = append(out, caseOut{Stream: r.stream, Index: r.idx, Line: r.line, Text: truncate(describe(r.line), 2000), Go: truncate(r.goAns, 4000), Lean: truncate(r.leanAns, 4000)})
+	}
+	return out
+}
+
+func checkMain(args []string) int {
+	if len(args) < 3 {
+		fmt.Fprintln(os.Stderr, "usage: harness check <property> <tier> <out.json> [--spec]")
+		return 2
+	}
+	prop, tier, outPath := args[0], args[1], args[2]
+	spec := len(args) > 3 && args[3] == "--spec"
+	plan, ok := plans()[prop]
+	if !ok {
+		fmt.Fprintln(os.Stderr, "no line-protocol streams for", prop)
+		return 2
+	}
+	self, _ := os.Executable()
+	cfg := runCfg{self: self, driver: driverPath(), seed: envSeed(), workers: runtime.NumCPU()}
+	if spec {
+		cfg.leanArgs = []string{"--spec"}
+	}
+	st := newStats()
+	t0 := time.Now()
+	out := checkOut{Property: prop, Tier: tier, Seed: cfg.seed, Spec: spec, Streams: map[string]int{}}
+	for _, p := range plan {
+		n := p.quick
+		if tier == "thorough" {
+			n = p.thorough
+		}
+		out.Streams[p.name] = n
+		runStream(cfg, p.name, n, st)
+	}
+	out.Evaluations, out.Distinct, out.Nontrivial = st.evals, len(st.distinct), st.nontrivial
+	out.Kinds, out.Samples = st.kinds, st.samples
+	out.Mismatches, out.Flags, out.Crashes = toCases(st.bad, 25), toCases(st.flags, 25), toCases(st.crashes, 25)
+	out.WallS = time.Since(t0).Seconds()
+	js, _ := json.MarshalIndent(out, "", " ")
+	if err := ioutil.WriteFile(outPath, js, 0644); err != nil {
+		fmt.Fprintln(os.Stderr, err)
+		return 2
+	}
+	return 0
+}
